@@ -239,6 +239,14 @@ func orEmpty(v *ref.Value) *ref.Value {
 }
 
 // tryPL builds the proposed event and asks the library.
+type c08checker struct {
+	prov *gmsl.AuthEvents
+	chk  *gmsl.VerifAllower
+}
+
+// one reused checker per room, kept for the whole run of a shard (cases run one after another)
+var c08reused = map[*world]*c08checker{}
+
 func tryPL(c *mon.Ctx, w *world, curEv gmsl.PDU, proposed *ref.Value, sender string, joined []string) (gmsl.PDU, bool) {
 	ev, err := w.build("m.room.power_levels", strp(""), sender, proposed, nil, "")
 	if err != nil {
@@ -262,6 +270,36 @@ func tryPL(c *mon.Ctx, w *world, curEv gmsl.PDU, proposed *ref.Value, sender str
 		return nil, false
 	}
 	c.Count("proposals")
+	// the same proposal through ONE checker per room that is kept across all proposals, driven as state resolution
+	// drives it (provider cleared and refilled, update, allowed): an acceptance there is an acceptance too
+	var viaReused error
+	site, msg, pan = mon.Guard(func() {
+		ru := c08reused[w]
+		if ru == nil {
+			ru = &c08checker{}
+			ru.prov, _ = gmsl.NewAuthEvents(nil)
+			c08reused[w] = ru
+		}
+		ru.prov.Clear()
+		for _, p := range state {
+			_ = ru.prov.AddEvent(p)
+		}
+		if ru.chk == nil {
+			ru.chk = gmsl.NewVerifAllower(ru.prov, userIDForSender, ev.RoomID())
+		} else {
+			ru.chk.Update(ru.prov)
+		}
+		viaReused = ru.chk.Allowed(ev)
+	})
+	if pan {
+		c.Failf("pl:panic:"+site, "the reused checker panics on a power-levels proposal: %s", msg)
+		return nil, false
+	}
+	c.Count("proposals_through_reused_checker")
+	if got != nil && viaReused == nil {
+		c.Count("proposals_accepted_only_by_reused_checker")
+		return ev, true
+	}
 	if got != nil {
 		c.Count("proposals_rejected")
 		return ev, false
